@@ -41,7 +41,7 @@ package blobstore
 // backend's, and only objects the backend just confirmed (asked minus missing)
 // are added to the cache — nothing on failure.
 //@ func (*existenceCachingBlobAccess).FindMissing
-//@   requires ba.BlobAccess != nil && ba.existenceCache != nil
+//@   requires ba.BlobAccess != nil && ba.existenceCache != nil && held(addr(ba.existenceCache.lock)) == 0
 //@   ensures [backend-asked-about-uncached] baCalls(ba.BlobAccess) == old(baCalls(ba.BlobAccess)) + 1 && fmArg(ba.BlobAccess) == ecRemoveRes(ba.existenceCache)
 //@   ensures [answer-is-the-backends] result1 == nil ==> fmErr(ba.BlobAccess) == nil && base(result0.digests) == fmRes(ba.BlobAccess)
 //@   ensures [only-confirmed-objects-cached] result1 == nil ==> ecAdds(ba.existenceCache) == old(ecAdds(ba.existenceCache)) + 1
@@ -70,10 +70,16 @@ package blobstore
 
 // FindMissing asks the authorizer about a list of instance names and reaches
 // the backend only if every one of them was granted; the first refusal is
-// returned with the authorizer's code. (That the list contains the instance
-// name of every digest is not decided: it goes through a map.)
+// returned with the authorizer's code. The list contains the instance name of
+// every digest of the request: each goes into the map (loop 0), and the
+// iteration over the map hands every key to the list (loop 1).
 //@ func (*authorizingBlobAccess).FindMissing
+//@   opt contents InstanceName
 //@   requires abaWF(ba)
+//@   ensures [backend-only-if-every-digests-name-granted] baCalls(ba.BlobAccess) != old(baCalls(ba.BlobAccess)) ==>
+//@         (forall j :: 0 <= j && j < len(digests.digests) ==> avCode(ba.findMissingAuthorizer, dgInst(digests.digests[j].value)) == 0)
+//@   loop 0 invariant forall j :: 0 <= j && j <= rangeindex && j < len(digests.digests) ==> has(instanceNamesSet, dgInst(digests.digests[j].value))
+//@   loop 1 invariant forall x str :: visited(instanceNamesSet, x) ==> (exists k :: 0 <= k && k < len(instanceNames) && instanceNames[k].value == x)
 //@   ensures [backend-only-if-all-granted] baCalls(ba.BlobAccess) != old(baCalls(ba.BlobAccess)) ==>
 //@         (forall k :: 0 <= k && k < len(instanceNames) ==> avCode(ba.findMissingAuthorizer, instanceNames[k].value) == 0)
 //@   ensures [refusal-reported] baCalls(ba.BlobAccess) == old(baCalls(ba.BlobAccess)) ==> result1 != nil
@@ -97,10 +103,22 @@ package blobstore
 //@ ghost dmPatcher int
 //@ ghost dmErr int
 //@ ghost dmName str
+//@ ufunc gB(ref, str) ref
+//@ ufunc gN(ref, str) str
+//@ ufunc gP(ref, str) ref
+//@ ufunc gE(ref, str) ref
+//@ ufunc nB(ref, str) ref
+//@ ufunc nP(ref, str) ref
 //@ iface DemultiplexedBlobAccessGetter.call
 //@   modifies dmBackend, dmPatcher, dmErr, dmName
 //@   ensures dmBackend == result0 && dmPatcher == result2 && dmErr == result3 && dmName == i.value
 //@   ensures result3 == nil ==> result0 != nil && result2 != nil
+// The getter is a function of the instance name (gB, gN, gP, gE: backend,
+// backend name, patcher and error it gives for a name), and a backend name
+// stands for one backend and one patcher (nB, nP) — assumed: the configuration
+// registers each prefix once, under its own name.
+//@   ensures result0 == gB(self, i.value) && result1 == gN(self, i.value) && result2 == gP(self, i.value) && result3 == gE(self, i.value)
+//@   ensures result3 == nil ==> result0 == nB(self, result1) && result2 == nP(self, result1)
 //@ func (*demultiplexingBlobAccess).Put
 //@   requires ba.getBackend != nil && b != nil
 //@   ensures [routed-by-instance-name] dmName == dgInst(digest.value)
